@@ -86,7 +86,7 @@ def main():
             hits = vlib.grep_forbidden(vlib.lean_files_of(prop, mod.MODEL_FILES))
             for h in hits: ctx.broke('forbidden construct', h)
             if tier == 'thorough' and os.environ.get('VERIF_LEANCHECKER', '1') == '1':
-                mods = ['CvxVerif.Props.' + prop]
+                mods = [t for t in mod.LEAN_TARGETS if '.Props.' in t] or ['CvxVerif.Props.' + prop]          # every file that holds property theorems
                 rc, out, err = vlib.run(['lake', 'env', 'leanchecker'] + mods, cwd=vlib.LEAN, timeout=3000)
                 ctx.cov['leanchecker'] = 'ok' if rc == 0 else 'FAILED'
                 if rc != 0: ctx.broke('leanchecker', (out + err)[-1000:])
